@@ -211,6 +211,7 @@ type vc36World struct {
 	gcHit     map[vc36PC]int64 // gc-race: end stamp of the last removal that found a task of this peer queued for the CID
 	gcRemoved map[string]int64 // gc-race: end stamp of the last removal of the multihash
 	envs      []vc36EnvRec     // delivered envelopes (peer, window start, end of Sent)
+	quietAt   []int64          // stamps at which the harness observed the request queue quiescent
 	sdhNum    int              // wants carry sendDontHave with probability sdhNum/10
 	staleTask map[vc36PC]bool // a task was queued for the CID when a full wantlist dropped it (until the next quiescent point)
 	orphanAdd map[vc36PC]bool // when the block was announced, a task was queued for the CID although the ledger had no entry (NotifyNewBlocks cannot upgrade it)
@@ -577,14 +578,11 @@ func (w *vc36World) removeBlockRacy(u *vc36Cid) {
 
 // gcAbsorbed (stratum gc-race only): the block of (p,c) vanished while a task
 // of p for it was queued, and everything that could have created a fresh task
-// since (re-adds with NotifyNewBlocks, re-wants) began before an envelope to p
-// that was built after the removal had been sent. The stale task is pending
-// (later wants merge into it) or, inside that envelope, still "active"
-// and, having been created for a present block, makes every new task look
-// redundant; it is finished when the envelope is sent. This follow-up of a
-// stale decision is garbage-collection territory like the stale decision
-// itself. An EMPTY envelope is never in flight (its tasks are finished at
-// once), so a leak there is not excused.
+// since (re-adds with NotifyNewBlocks, re-wants) began before the harness next
+// observed the request queue quiescent. Such operations can be swallowed by
+// the stale task; this follow-up of a stale decision is garbage-collection
+// territory like the stale decision itself. Once a quiescent point has been
+// seen after the removal, a re-add must lead to an answer (liveness kept).
 func (w *vc36World) gcAbsorbed(p peer.ID, u *vc36Cid) bool {
 	key := vc36PC{p, u.c}
 	rem, ok := w.gcRemoved[u.mhKey]
@@ -606,16 +604,18 @@ func (w *vc36World) gcAbsorbed(p peer.ID, u *vc36Cid) bool {
 	if last < 0 {
 		return false
 	}
-	for _, e := range w.envs {
-		// the envelope that carried the stale task was still unsent when the
-		// last such operation began (operations before the pop merge into the
-		// stale task, operations after the pop are judged redundant)
-		if e.p == p && e.sentEnd > rem && e.sentEnd > last {
-			w.k.C.Count("gc_readd_absorbed_by_inflight_envelope", 1)
-			return true
+	// No quiescent point was observed between the removal and that operation:
+	// the stale task may still have been pending (later wants merge into it)
+	// or active (popped; a task created for a present block makes every new
+	// task look redundant until it is finished). After a quiescent point no
+	// stale task exists any more and the clause is strict.
+	for _, q := range w.quietAt {
+		if q > rem && q < last {
+			return false
 		}
 	}
-	return false
+	w.k.C.Count("gc_readd_absorbed_by_stale_task", 1)
+	return true
 }
 
 // ---------------------------------------------------------------- outbox side
@@ -754,6 +754,9 @@ func (w *vc36World) deliverOne() bool {
 			return true
 		}
 		if w.quiet() {
+			w.mu.Lock()
+			w.quietAt = append(w.quietAt, w.tick())
+			w.mu.Unlock()
 			return false
 		}
 		if w.nHeld() == 0 {
@@ -771,6 +774,9 @@ func (w *vc36World) deliverOne() bool {
 			time.Sleep(200 * time.Microsecond)
 		}
 		if spins > 0 && spins%3000 == 0 && w.stuckActive() {
+			w.mu.Lock()
+			w.quietAt = append(w.quietAt, w.tick())
+			w.mu.Unlock()
 			return false // treated as quiescent from here on; the liveness clauses still run
 		}
 	}
